@@ -135,49 +135,87 @@ def check_verify_payload(ctx, rule):
                      sorted(msg["tobytes_roots"]), msg["post"], msg["other"]), t["at"])
 
 
-def msg_sources(fx, b, op):
-    """Derivation of a message operand: which values' to_bytes() it comes from, which post-processing
-    calls (with constant arguments) it went through, and anything else non-constant."""
-    res = {"tobytes_roots": set(), "post": [], "other": []}
+def _closure_of(b, op):
+    p = op_place(op)
+    if p is None:
+        return None
+    d = b.single_def(p["l"])
+    if d and d.kind == "assign" and d.node["rv"].get("agg") == "closure":
+        return d.node["rv"]["closure_key"]
+    return None
+
+
+def msg_sources(fx, b, op, path=()):
+    """Derivation of a message operand: which values' canonical bytes (to_bytes / canonicalize) it comes
+    from, which post-processing steps (with constant arguments; local functions by path) it went through,
+    and anything else non-constant.  Closures of Result::and_then / map are followed."""
+    res = {"tobytes_roots": set(), "post": [], "other": [], "canon": []}
     seen = set()
 
-    def walk(x, depth=0):
-        for lf in b.trace(x):
+    def walk(body, x, path, depth):
+        if depth > 14:
+            res["other"].append("depth")
+            return
+        for lf in body.trace(x, path):
             if lf.kind == "const":
                 continue
             if lf.kind == "call":
                 bb, t = lf.data
-                if (bb, "c") in seen:
+                if (body.key, bb) in seen:
                     continue
-                seen.add((bb, "c"))
+                seen.add((body.key, bb))
                 n = callee_name(t) or ""
                 last = n.split("::")[-1]
                 if last == "to_bytes" and ("MetadataWrapper" in n or "Metadata" in n):
-                    for r in root_ids(b, t["args"][0]):
+                    for r in root_ids(body, t["args"][0]):
                         res["tobytes_roots"].add(r)
+                    continue
+                if n.endswith("DataInterchange::canonicalize"):
+                    res["canon"].append((body, bb, t))
                     continue
                 if n in ("std::string::String::from_utf8", "core::str::from_utf8", "std::str::from_utf8",
                          "std::string::String::from_utf8_lossy"):
                     res["post"].append(last)
-                    walk(t["args"][0], depth + 1)
+                    walk(body, t["args"][0], (), depth + 1)
                     continue
                 if n.endswith("::replace") or n.endswith("::replacen"):
-                    consts = [ (op_const(a) or {}).get("str") for a in t["args"][1:] ]
+                    consts = [(op_const(a) or {}).get("str") for a in t["args"][1:]]
                     res["post"].append("%s%r" % (last, tuple(consts)))
-                    walk(t["args"][0], depth + 1)
+                    walk(body, t["args"][0], (), depth + 1)
                     continue
+                if n in ("std::result::Result::and_then", "std::result::Result::map", "std::option::Option::map", "std::option::Option::and_then"):
+                    ck = _closure_of(body, t["args"][1])
+                    if ck in fx.fns:
+                        cb = body_of(fx, ck)
+                        # what the closure returns, in terms of its argument (param 2)
+                        rpath = (OK, F0) if last == "and_then" and "Result" in n else ((SOME, F0) if last == "and_then" else ())
+                        for cl in cb.trace({"l": 0, "p": []}, rpath):
+                            if cl.kind == "param" and cl.data == 2:
+                                continue
+                            if cl.kind == "call":
+                                ct = cl.data[1]
+                                ckk = ct.get("resolved_key") or ct.get("callee_key")
+                                if ckk in fx.fns and ct.get("callee_crate") == "in_toto":
+                                    res["post"].append("local:" + fx.fns[ckk]["path"])
+                                    for a in ct["args"]:
+                                        for al in cb.trace(a):
+                                            if not (al.kind == "param" and al.data == 2) and al.kind != "const":
+                                                res["other"].append("closure:" + leaf_s(cb, al))
+                                    continue
+                            if cl.kind != "const":
+                                res["other"].append("closure:" + leaf_s(cb, cl))
+                        walk(body, t["args"][0], (OK, F0) if "Result" in n else (SOME, F0), depth + 1)
+                        continue
                 ck = t.get("resolved_key") or t.get("callee_key")
                 if ck in fx.fns and t.get("callee_crate") == "in_toto":
                     res["post"].append("local:" + fx.fns[ck]["path"])
                     for a in t["args"]:
-                        walk(a, depth + 1)
+                        walk(body, a, (), depth + 1)
                     continue
                 res["other"].append(short(n))
-            elif lf.kind == "param":
-                res["other"].append(leaf_s(b, lf))
             else:
-                res["other"].append(leaf_s(b, lf))
-    walk(op)
+                res["other"].append(leaf_s(body, lf))
+    walk(b, op, path, 0)
     return res
 
 
